@@ -78,6 +78,8 @@ struct Sock {
 
 #[derive(Clone, Debug)]
 pub struct BindPlan {
+    /// the node thread may proceed past bind only once the harness has queued its Check message
+    pub released: bool,
     pub ip: Ipv4Addr,
     /// Some(public address) = the node sits behind an address-restricted NAT that maps it there.
     pub nat_public: Option<SocketAddrV4>,
@@ -161,9 +163,14 @@ impl dht::verif::Env for Shared {
     }
     fn bind(&self, requested: SocketAddr) -> io::Result<(u64, SocketAddr)> {
         let mut g = self.lock();
-        let plan = match g.bind_plan.front().cloned() {
-            Some(p) => p,
-            None => return Err(io::Error::new(io::ErrorKind::AddrNotAvailable, "simnet: unplanned bind")),
+        let plan = loop {
+            match g.bind_plan.front().cloned() {
+                Some(p) if p.released => break p,
+                Some(_) => {
+                    g = self.sched_cv.wait(g).unwrap_or_else(|e| e.into_inner());
+                }
+                None => return Err(io::Error::new(io::ErrorKind::AddrNotAvailable, "simnet: unplanned bind")),
+            }
         };
         let mut port = requested.port();
         if port == 0 {
@@ -479,6 +486,9 @@ impl World {
     /// Wait (real time) until every node thread is parked or gone.
     pub fn settle(&self) -> bool {
         let mut g = self.sh.lock();
+        if g.stuck {
+            return false;
+        }
         let mut waited = 0;
         loop {
             let busy = g.socks.values().any(|s| s.kind == Kind::Node && matches!(s.st, St::Running | St::Granted));
@@ -500,7 +510,7 @@ impl World {
     pub fn spawn(&self, spec: NodeSpec) -> io::Result<Node> {
         self.settle();
         let before: HashSet<SockId> = self.sh.lock().socks.keys().copied().collect();
-        self.sh.lock().bind_plan.push_back(BindPlan { ip: spec.ip, nat_public: spec.nat_public });
+        self.sh.lock().bind_plan.push_back(BindPlan { released: false, ip: spec.ip, nat_public: spec.nat_public });
         let mut b = Dht::builder();
         let boots: Vec<String> = spec.bootstrap.iter().map(|a| a.to_string()).collect();
         b.bootstrap(&boots);
@@ -516,12 +526,38 @@ impl World {
         if let Some(s) = spec.settings.clone() {
             b.server_settings(s);
         }
-        let res = b.build();
+        // The first poll spawns the actor thread and queues its Check message; the thread is held
+        // inside bind() until then, so it always finds the message on its first loop iteration.
+        let mut fut = Box::pin(b.build_async());
+        let mut res = poll_once(fut.as_mut());
+        {
+            let mut g = self.sh.lock();
+            if let Some(p) = g.bind_plan.front_mut() {
+                p.released = true;
+            }
+            self.sh.sched_cv.notify_all();
+        }
+        let mut spins = 0;
+        while res.is_pending() {
+            // wait (real time) for the new thread to park or die, then look again
+            std::thread::sleep(Duration::from_micros(if spins < 50 { 20 } else { 1000 }));
+            self.settle();
+            res = poll_once(fut.as_mut());
+            spins += 1;
+            if spins > 30_000 {
+                self.sh.lock().stuck = true;
+                self.sh.lock().bind_plan.clear();
+                return Err(io::Error::new(io::ErrorKind::TimedOut, "simnet: node did not come up"));
+            }
+        }
         self.settle();
         let mut g = self.sh.lock();
         // a failed bind leaves its plan queued
         g.bind_plan.clear();
-        let dht = res?;
+        let adht = match res {
+            Poll::Ready(r) => r?,
+            Poll::Pending => unreachable!(),
+        };
         let (sock, addr) = g
             .socks
             .iter()
@@ -529,7 +565,7 @@ impl World {
             .map(|(id, s)| (*id, s.addr))
             .expect("new socket registered");
         drop(g);
-        Ok(Node { adht: dht.clone().as_async(), dht, sock, addr })
+        Ok(Node { dht: adht.as_sync().clone(), adht, sock, addr })
     }
 
     /// Harness-owned endpoint.
